@@ -7,7 +7,7 @@ import shapes
 COUNT = {"quick": 1200, "thorough": 30000}
 
 
-def thread_prog(rng, u, nacq, allow_panic, data_ops, only=None, sh=0.35):
+def thread_prog(rng, u, nacq, allow_panic, data_ops, only=None, sh=0.35, sweep=0.0):
     b = u.b
     ops = []
     for _ in range(nacq):
@@ -16,9 +16,12 @@ def thread_prog(rng, u, nacq, allow_panic, data_ops, only=None, sh=0.35):
         mode = "sh" if b.sharable[cid] and b.locks_of[cid] and rng.random() < sh else "ex"
         n = len(b.locks_of[cid])
         fl = rng.choice(["guard", "guard", "scoped", "try", "scopedtry"])
+        sw = n and rng.random() < sweep      # touch every position of the guard / closure argument, in order
         if fl in ("guard", "try"):
             ops.append(("acq", cid, mode, fl))
-            for _ in range(rng.randint(0, data_ops)):
+            if sw:
+                ops += [("gread", pos) for pos in range(n)]
+            for _ in range(0 if sw else rng.randint(0, data_ops)):
                 if n:
                     pos = rng.randrange(n)
                     ops.append(("gwrite", pos) if mode == "ex" and rng.random() < 0.6 else ("gread", pos))
@@ -29,6 +32,8 @@ def thread_prog(rng, u, nacq, allow_panic, data_ops, only=None, sh=0.35):
         else:
             lent = rng.random() < 0.6
             body = histgen.body(rng, b, cid, mode, allow_panic, 0.2)
+            if sw:
+                body = [("r", pos) for pos in range(n)] + ([("w", rng.randrange(n))] if mode == "ex" else [])
             ops.append(("acq", cid, mode, fl, lent, body))
     return ops
 
@@ -86,7 +91,7 @@ def gen(pid, tier, rng, n=None):
         for t in range(nt):
             progs.append((t, thread_prog(rng, u, rng.randint(1, 3), (pid in ("C01", "C03", "C05") and rng.random() < 0.3) or (pid == "C10" and rng.random() < 0.8),
                                          2 if pid == "C02" else 1, only if t == 0 else (others if others and rng.random() < 0.8 else None),
-                                         sh0 if t == 0 else 0.35)))
+                                         sh0 if t == 0 else 0.35, sweep=0.35 if pid == "C02" else 0.0)))
         total = sum(len(p) for _, p in progs)
         sched = [rng.randrange(nt) for _ in range(rng.randint(total, 4 * total + 4))]
         if rng.random() < 0.2:
